@@ -1344,11 +1344,22 @@ class UTPM(Ring, RawAlgorithmsMixIn):
             tmp = int(numpy.prod(self.data.shape[2:], dtype=int))
             return UTPM(numpy.sum(self.data.reshape(self.data.shape[:2] + (tmp,)), axis = 2))
         else:
-            if axis < 0:
-                a = self.data.ndim + axis
-            else:
-                a = axis + 2
-            return UTPM(numpy.sum(self.data, axis = a))
+            return UTPM(numpy.sum(self.data, axis = self._item_axes(axis, self.data.ndim - 2)))
+
+    @staticmethod
+    def _item_axes(axis, ndim):
+        """ the axis argument of a reduction (an integer or a tuple of integers, counted on the
+        shape of the polynomial array) as axes of the coefficient array; an axis out of range
+        raises as in NumPy (it must never reach the direction or the coefficient axis) """
+        axes = []
+        for a in (axis if isinstance(axis, tuple) else (axis,)):
+            a = operator.index(a)
+            if not -ndim <= a < ndim:
+                raise getattr(numpy, 'exceptions', numpy).AxisError(a, ndim)
+            axes.append(a % ndim + 2)
+        if len(set(axes)) != len(axes):
+            raise ValueError('duplicate value in axis')
+        return tuple(axes)
 
     @classmethod
     def pb_sum(cls, ybar, x, y, axis, dtype, out2, out = None):
@@ -1373,14 +1384,9 @@ class UTPM(Ring, RawAlgorithmsMixIn):
 
         else:
 
-            if axis < 0:
-                a = x.data.ndim + axis
-
-            else:
-                a = axis + 2
-
             shp = list(x.data.shape)
-            shp[a] = 1
+            for a in cls._item_axes(axis, x.data.ndim - 2):
+                shp[a] = 1
             tmp = ybar.data.reshape(shp)
             xbar.data += tmp
 
